@@ -7,9 +7,26 @@ from graphgen import *
 LEVEL = 'proof'
 
 
-def one_case(V, E):
+FORM = [0]
+
+
+def one_case(V, E, form=None):
     from pyModelChecking.graph import DiGraph, compute_SCCs
-    G = DiGraph(V=V, E=E)
+    # the node and edge collections are handed over in rotating iterable forms (lists, tuples, one-shot iterators, zip)
+    FORM[0] += 1
+    k = FORM[0] % 6 if form is None else form
+    del FORM[1:]
+    FORM.append(k)
+    if k == 3:
+        G = DiGraph(V=iter(list(V)), E=iter(list(E)))
+    elif k == 4:
+        G = DiGraph(V=tuple(V), E=zip([a for a, _ in E], [b for _, b in E]))
+    elif k == 5:
+        G = DiGraph(V=list(V), E=(tuple(e) for e in list(E)))
+    else:
+        G = DiGraph(V=V, E=E)
+    if set(G._next) != set(V) | {x for e in E for x in e} or {(a, b) for a, ds in G._next.items() for b in ds} != {tuple(e) for e in E}:
+        return G, ('err', 'other:the DiGraph built from (V, E) given as %s is not the graph (V, E)' % {3: 'iterators', 4: 'tuple / zip', 5: 'list / generator'}.get(k, 'lists')), True
     before = repr(sorted((repr(k), sorted(map(repr, v))) for k, v in G._next.items()))
     r = call(lambda: [list(c) for c in compute_SCCs(G)])
     after = repr(sorted((repr(k), sorted(map(repr, v))) for k, v in G._next.items()))
@@ -47,16 +64,16 @@ def run(R):
     cmds, meta = [], []
     for (V, E) in cases:
         G, r, unchanged = one_case(V, E)
-        meta.append((V, E, r, unchanged))
+        meta.append((V, E, r, unchanged, FORM[-1]))
         cmds.append(['scc', graph_sx(G)])
     outs = model_batch_parallel(cmds)
     order_agree = 0
-    for (V, E, r, unchanged), o in zip(meta, outs):
+    for (V, E, r, unchanged, form), o in zip(meta, outs):
         R.evaluations += 1
         model_part = set(frozenset(ints(c)) for c in o)
         model_seq = [ints(c) for c in o]
         if r[0] != 'ok':
-            R.violation('compute_SCCs raised %s' % r[1], {'V': V, 'E': E, 'impl': r})
+            R.violation('compute_SCCs raised %s' % r[1], {'V': V, 'E': E, 'impl': r, 'argument_form': form})
             continue
         impl_seq = r[1]
         flat = [x for c in impl_seq for x in c]
@@ -65,7 +82,7 @@ def run(R):
         if not ok:
             orc = oracle_sccs(set(V) | {x for e in E for x in e}, E)
             R.violation('compute_SCCs partition differs from the proved model' if unchanged else 'compute_SCCs modified the graph',
-                        {'V': V, 'E': E, 'impl': impl_seq, 'model': model_seq,
+                        {'V': V, 'E': E, 'argument_form': form, 'impl': impl_seq, 'model': model_seq,
                          'oracle': sorted(sorted(c) for c in orc), 'impl_wrong_by_oracle': impl_part != orc or len(flat) != len(set(flat))})
             continue
         if impl_seq == model_seq:
@@ -74,7 +91,7 @@ def run(R):
             R.nontriv((tuple(V), tuple(sorted(E))))
             R.sample({"V": V, "E": E, "components": impl_seq})
     R.cov['internal_agreement'] = {'yield_sequence_identical': order_agree, 'of': R.evaluations}
-    R.cov['distribution'] = {'n_nodes_hist': _hist(len(set(V) | {x for e in E for x in e}) for V, E, _, _ in meta)}
+    R.cov['distribution'] = {'n_nodes_hist': _hist(len(set(V) | {x for e in E for x in e}) for V, E, _, _, _ in meta)}
     R.exhaustive = R.thorough
 
 
@@ -87,7 +104,7 @@ def _hist(it):
 
 def replay(R, data):
     d = data['data']
-    G, r, unchanged = one_case(d['V'], [tuple(e) for e in d['E']])
+    G, r, unchanged = one_case(d['V'], [tuple(e) for e in d['E']], form=d.get('argument_form', 0))
     o = model_batch([['scc', graph_sx(G)]])[0]
     print('impl :', r)
     print('model:', [ints(c) for c in o])
